@@ -83,7 +83,7 @@ type vC11Req struct {
 	cancel   context.CancelFunc
 	done     chan struct{}
 	start    time.Time
-	internalW bool
+	endAt    int
 }
 
 type vC11PTransport struct {
@@ -407,6 +407,7 @@ func TestVerifC11Pipe(t *testing.T) {
 				deadline := start.Add(time.Duration(rq.arrive+rq.timeout) * time.Millisecond)
 				go func() {
 					defer close(rq.done)
+					defer func() { rq.endAt = int(time.Since(start) / time.Millisecond) }()
 					ctx := contextutil.WithLazyDeadline(parent, deadline)
 					defer ctx.Cancel()
 					ch := middleware.NewChain([]middleware.Handler{cch, down})
@@ -470,9 +471,9 @@ func TestVerifC11Pipe(t *testing.T) {
 			reqCoq = append(reqCoq, fmt.Sprintf("new_preq %d %v %d %s [%s]", rq.name, rq.internal, deadline, vC11HoldName(rq.hold), strings.Join(atts, "; ")))
 			cancelled := rq.cancelAt >= 0
 			expired := rq.writes > 0 && rq.wtime >= deadline
-			obsCoq = append(obsCoq, fmt.Sprintf("mk_pobs %d %d %v %v %v %d %v", rq.writes, rq.class, rq.called.Load(), cancelled, expired, rq.wtime, rq.racy))
+			obsCoq = append(obsCoq, fmt.Sprintf("mk_pobs %d %d %v %v %v %d %v %d", rq.writes, rq.class, rq.called.Load(), cancelled, expired, rq.wtime, rq.racy, rq.endAt))
 			desc = append(desc, map[string]any{"i": i, "q": rq.name, "arrive": rq.arrive, "deadline": deadline, "hold": vC11HoldName(rq.hold), "atts": fmt.Sprint(rq.atts),
-				"cancel_at": rq.cancelAt, "release_at": rq.release, "writes": rq.writes, "class": rq.class, "downstream": rq.called.Load(), "written_at": rq.wtime})
+				"cancel_at": rq.cancelAt, "release_at": rq.release, "writes": rq.writes, "class": rq.class, "downstream": rq.called.Load(), "written_at": rq.wtime, "returned_at": rq.endAt})
 			if rq.writes > 1 && goFail == "" {
 				goFail = fmt.Sprintf("request %d: %d writes reached the transport", i, rq.writes)
 			}
